@@ -1,6 +1,6 @@
 CONSTANTS
   Iters = {1, 2, 3, 4, 5, 6}
-  Blobs = {1, 2, 3, 4}
+  Blobs <- BlobSet
   L = 0
 INIT TInit
 NEXT TStep
